@@ -46,6 +46,8 @@ FORMS_RAW = {  # formula -> referenced columns (those whose nulls matter)
     "C(zt) + x": ["x"], "C(zo):x + y": ["x", "y"],
     # a bare name resolving to a context vector that holds the only nulls (positions 2, 6, ..)
     "zn + x": ["x"], "zn": [], "y ~ zn:A": ["y", "A"],
+    # a float vector from the context holding +inf / -inf (positions 3, 7, ..): infinite is not missing
+    "zi + x": ["x"], "zi + A": ["A"], "y ~ zi": ["y"], "{np.stack([zi, zi * 2], axis=1)} + x": ["x"],
     # a data column called `index` (what reset_index() leaves behind)
     "index + x": ["index", "x"], "A:index": ["A", "index"], "y ~ index | S": ["y", "index", "S"],
 }
@@ -118,7 +120,8 @@ def make_ctx(case):
     z = [100.0 + i for i in range(n)]
     return {"zl": list(z), "za": np.array(z), "zs": pd.Series(z), "zt": np.array(["k", "l", "m"] * n)[:n],
             "zo": np.array([None if i % 4 == 1 else "pq"[i % 2] for i in range(n)], dtype=object),
-            "zn": np.array([np.nan if i % 4 == 2 else 1.0 + i for i in range(n)])}
+            "zn": np.array([np.nan if i % 4 == 2 else 1.0 + i for i in range(n)]),
+            "zi": np.array([(np.inf if i % 8 == 3 else -np.inf) if i % 4 == 3 else 0.5 * i for i in range(n)])}
 
 
 def run(case, df, s):
@@ -226,7 +229,7 @@ def judge(case) -> Outcome:
         out.see("context_factor_checks")
         return out
     # values: the same specs on the pre-filtered data give the same matrices
-    if kept and na == "drop" and "zt" not in f and "zo" not in f and "zn" not in f:
+    if kept and na == "drop" and "zt" not in f and "zo" not in f and "zn" not in f and "zi" not in f:
         try:
             with quiet():
                 ref = res.model_spec.get_model_matrix(df.iloc[kept])
